@@ -21,12 +21,14 @@ RULE = ('frames with 1-5 locals of which 1-2 are hostile (bytes, datetime, deque
         'reach of a due action; distinct by (hostile class, placement, tracepoint count, sibling skeleton)')
 ASSUMPTIONS = ['placeholder text for an unrenderable value may be anything', 'children of hostile values are not required']
 REQUIRE = {'due_actions': 300, 'hostile_classes_seen': 40, 'multi_tracepoint_events': 50, 'capture_cases': 20,
-           'watch_cases': 20, 'logged_cases': 100, 'logger_rejected_the_text': 4}
+           'watch_cases': 20, 'logged_cases': 100, 'logger_rejected_the_text': 4,
+           'churn_cases_with_interleaving': 10}
 
 
 def plan(tier, seed):
     n = {'quick': 1920, 'thorough': 28800}[tier]
-    return split_seeds('h%s' % seed, n, 16, 'hostile')
+    return split_seeds('h%s' % seed, n, 16, 'hostile') + split_seeds('u%s' % seed, {'quick': 48, 'thorough': 480}[tier],
+                                                                       4, 'churn')
 
 
 def case_hostile(seed, out, spec, wd, idx):
@@ -153,6 +155,133 @@ def case_hostile(seed, out, spec, wd, idx):
              sample=dict(witness, delivered=len(st['snaps'])))
 
 
+def case_churn(seed, out, spec, wd):
+    """A set / dict of the frame is being changed by another thread while the snapshot is taken: the snapshot is still
+    delivered, the siblings are intact and the container is described with its elements (as many as the collection
+    limit allows - the container never has fewer than that)."""
+    import sys
+    import threading
+    r = Rng('c06u', seed)
+    flavour = r.pick(['set', 'set', 'frozen_growing_dict'])
+    size = r.pick([64, 300, 2000]) if flavour == 'set' else 64
+    if flavour == 'set':
+        shared = set(range(size))
+    else:
+        shared = {i: str(i) for i in range(size)}
+    names = ['before', 'shared', 'after']
+    values = [['b', 1], shared, {'a': (1, 2)}]
+    case = FrameCase(wd, names, values)
+    ntp = r.pick([1, 2])
+    # a generous collection limit (when the per-action limit keys are honoured at all): walking a few thousand elements
+    # takes long enough for the other thread to get its turns in between
+    from vf.props.c05 import calibrated
+    wide = flavour == 'set' and size >= 300 and r.chance(0.7) and calibrated(wd)
+    if wide:
+        trigs = [direct_trigger('tp%d' % i, case.base, case.line, 'Snapshot',
+                                {'MAX_COLLECTION_SIZE': 3000, 'MAX_VARIABLES': 8000, 'MAX_STRING_LENGTH': 1024,
+                                 'MAX_VAR_DEPTH': 5}) for i in range(ntp)]
+    else:
+        trigs = [line_trigger('tp%d' % i, case.base, case.line, {}, []) for i in range(ntp)]
+    go, paused, stop = threading.Event(), threading.Event(), threading.Event()
+    turns = [0]
+
+    def mutate():
+        i = size
+        while not stop.is_set():
+            if not go.is_set():
+                paused.set()
+                go.wait(0.05)
+                continue
+            paused.clear()
+            turns[0] += 1
+            if flavour == 'set':
+                # grows by up to 1000 elements, shrinks back, and so on: the size never drops below the initial one
+                if (i - size) // 1000 % 2 == 0:
+                    shared.add(i)
+                else:
+                    shared.discard(i - 1000)
+            else:
+                # only grows (every key seen once stays), and not beyond what fits the variable budget with room
+                # to spare: dictionaries are not cut at the collection size
+                shared[i if len(shared) < size + 100 else size] = str(i)
+            i += 1
+
+    t = threading.Thread(target=mutate, name='vf-churn')
+    old_switch = sys.getswitchinterval()
+    sys.setswitchinterval(1e-6)
+    t.start()                                   # started before the agent's hooks exist: not traced itself
+    probs = snapcheck.Problems()
+    st = {'snaps': [], 'hit': 0, 'turns': 0}
+
+    def pre(ev, frame, arg):
+        if ev.kind == 'line' and ev.line == case.line and ev.base == case.base:
+            turns[0] = 0
+            go.set()
+
+    def on_hit(ev, frame, stack, new):
+        go.clear()
+        paused.wait(5)
+        st['hit'] += 1
+        st['turns'] += turns[0]
+        limit = 3000 if wide else snapcheck.default_limits()['max_coll']
+        got = {}
+        for rec in new:
+            got.setdefault(rec.snapshot.tracepoint.id, []).append(rec.snapshot)
+        for i in range(ntp):
+            ss = got.get('tp%d' % i, [])
+            if len(ss) != 1:
+                probs.add('totality:snapshot-lost', 'tracepoint tp%d is due at this event but %d snapshots were '
+                                                    'delivered while another thread changed a %s of the frame' % (
+                                                        i, len(ss), flavour))
+                continue
+            s = ss[0]
+            st['snaps'].append(s)
+            top = {v.name: s.var_lookup.get(v.vid) for v in s.frames[0].variables}
+            for n in names:
+                if top.get(n) is None:
+                    probs.add('fidelity:missing-local', 'local %r is missing from the snapshot' % n)
+            ent = top.get('shared')
+            if ent is not None and len(ent.children) < min(limit, size):
+                probs.add('totality:elements-lost', '%s of %d+ elements that another thread keeps changing is described '
+                                                    'as %r with %d elements (collection limit %d)' % (
+                                                        type(shared).__name__, size, ent.value, len(ent.children), limit))
+            for n, v in (('before', values[0]), ('after', values[2])):
+                e = top.get(n)
+                if e is not None and (e.type != type(v).__name__ or len(e.children) != len(v)):
+                    probs.add('fidelity:value', 'sibling %r changed: %s with %d children' % (n, e.type, len(e.children)))
+            snapcheck.check_closed(s, probs)
+            if not wide:     # (the hand-built action of the wide flavour carries numbers where the wire has text)
+                convert_ok(s, probs)
+
+    case.rig.pre = pre
+    try:
+        hung, _ = case.run(trigs, on_hit)
+    finally:
+        stop.set()
+        go.set()
+        t.join(10)
+        sys.setswitchinterval(old_switch)
+    replay = replay_spec(spec, seed)
+    witness = {'container': flavour, 'size': size, 'tracepoints': ntp, 'collection_limit': 3000 if wide else 'default', 'mutator_turns_during_collection': st['turns'],
+               'agent_log': [short(x, 260) for x in case.rig.logs[-2:]]}
+    if hung or st['hit'] == 0:
+        out.inconc('C06 churn case did not reach its line (seed %s)' % seed)
+        return
+    if case.rig.escapes:
+        probs.add('containment:escape', 'collection raised into the host: %s' % case.rig.escapes[0][2][-300:])
+    for mech, what in probs:
+        out.violation(mech, what, witness, replay)
+    out.count('churn_cases')
+    if st['turns']:
+        out.count('churn_cases_with_interleaving')
+        out.count('mutator_turns_during_collection', st['turns'])
+    out.count('due_actions', ntp)
+    if wide:
+        out.count('churn_cases_with_wide_limit')
+    out.case({'churn': flavour, 'size': size, 'n': ntp, 'seed': str(seed)}, nontrivial=st['turns'] > 0,
+             sample=dict(witness, delivered=len(st['snaps'])))
+
+
 def judge(new, ids, stack, watches, probs, st):
     got = {}
     for rec in new:
@@ -221,6 +350,10 @@ def run_shard(spec, out):
     wd = Workdir('c06')
     try:
         seeds = spec_seeds(spec)
+        if spec.get('kind') == 'churn':
+            for seed in seeds:
+                case_churn(seed, out, spec, wd.path)
+            return
         for i, seed in enumerate(seeds):
             idx = spec.get('lo', 0) + i
             try:
